@@ -403,15 +403,17 @@ PROPS["C07"] = {
              "connection and only a prefix of a handed line); duplicates allowed; backlog drained; Shutdown returns. outage_under_load: a steady "
              "paced stream of 1500-6000 lines with the endpoint killed at a drawn point (10-45 %, reset or orderly close) and back at 55-90 %; "
              "iobuf from 8 bytes (smaller than a line: a dying connection fails inside Write) to 64 KB (fails in a flush), connbuf, flush 1-50 ms, "
-             "reconn 10-100 ms, pacing, line length 30-230 bytes; same oracle (every case counts as non-trivial). Non-trivial: a line handed while down "
+             "reconn 10-100 ms, pacing, line length 30-230 bytes; same oracle (every case counts as non-trivial). shared_endpoint: 2-3 spooling destinations "
+             "(different routes, or one route with different instances) pointing at ONE endpoint address with ONE spool directory, one or two outages; the identity must hold per "
+             "destination on its own lines, nothing invented, every backlog drains (non-trivial: >=2 destinations whose down-phase lines arrived). Non-trivial: a line handed while down "
              "was received later (went through the spool) AND a line was seen by two connections (replayed from the redo buffer). Distinct = "
              "hash(schedule, tuning)."),
     "level_text": "Generated outage schedules against a real destination with a real disk spool over loopback TCP, exact loss-vs-counted-drops oracle; outage detection timing is the kernel's and scheduler's, so interleavings are sampled.",
     "level_note": "The harness cannot place an outage between two chosen instructions; outage_under_load raises the hit rate of the window around detection (it exposed the getRedo race, now fixed). Drain deadlines are liveness checks (60 s vs <1 s normal).",
     "technique": "property-based testing (rapid) with endpoint fault schedules: set-inclusion + accounting oracle over all connection incarnations",
     "assumptions": ["loopback TCP", "SO_REUSEADDR lets the endpoint come back on the same port"],
-    "quick": [R("TestPropSpoolOutage", 30), R("TestPropOutageUnderLoad", 25, timeout=900)],
-    "thorough": [R("TestPropSpoolOutage", 90, shards=10, timeout=3000), R("TestPropOutageUnderLoad", 120, shards=6, timeout=3000)],
+    "quick": [R("TestPropSpoolOutage", 30), R("TestPropOutageUnderLoad", 25, timeout=900), R("TestPropSharedEndpoint", 12, timeout=900)],
+    "thorough": [R("TestPropSpoolOutage", 90, shards=8, timeout=3000), R("TestPropOutageUnderLoad", 120, shards=5, timeout=3000), R("TestPropSharedEndpoint", 80, shards=3, timeout=3000)],
 }
 
 PROPS["C17"] = {
